@@ -35,13 +35,41 @@ fn module_text(c: &Case) -> String {
          Zt-{u} ::= [APPLICATION 3] INTEGER (0..7)\n\
          Zs-{u} ::= [5] IA5String\n\
          {kinds}\
+         {members}\
          {l} INTEGER ::= 5\n\
+         zz-root OBJECT IDENTIFIER ::= {{ 1 2 3 }}\n\
          END\n",
         u = c.upper,
         l = c.lower,
-        kinds = KINDS.iter().enumerate().map(|(i, k)| format!("Zk{i}-{} ::= {k}\n", c.upper)).collect::<String>()
+        kinds = KINDS.iter().enumerate().map(|(i, k)| format!("Zk{i}-{} ::= {k}\n", c.upper)).collect::<String>(),
+        members = MEMBER_KINDS
+            .iter()
+            .enumerate()
+            .map(|(i, k)| format!("Zm{i}-{u} ::= SEQUENCE {{ {l} {k}, zz-tail{i} NULL }}\nZc{i}-{u} ::= CHOICE {{ {l} {k}, zz-tail{i} NULL }}\n", u = c.upper, l = c.lower))
+            .collect::<String>()
     )
 }
+
+/// one component and one alternative per kind of member type, with and without a constraint:
+/// the member annotations are assembled per kind as well
+const MEMBER_KINDS: [&str; 16] = [
+    "BOOLEAN",
+    "BOOLEAN (TRUE)",
+    "NULL",
+    "INTEGER (0..7)",
+    "OBJECT IDENTIFIER",
+    "OBJECT IDENTIFIER (zz-root)",
+    "GeneralizedTime",
+    "GeneralizedTime (\"20200101000000Z\")",
+    "UTCTime",
+    "UTF8String (SIZE (1..4))",
+    "IA5String (FROM (\"ab\"))",
+    "OCTET STRING",
+    "BIT STRING (SIZE (8))",
+    "Zz-En",
+    "SEQUENCE OF INTEGER",
+    "SET { zz-in NULL }",
+];
 
 /// one type assignment per kind of type: each kind has a generator function of its own, and
 /// each of them writes the identifier annotation itself
@@ -213,7 +241,22 @@ fn judge(c: &Case, mods: &[RModule]) -> Option<(&'static str, String)> {
             return Some(f);
         }
     }
-    let consts: Vec<_> = m.items.iter().filter_map(|i| match i { RItem::Const(k) => Some(k), _ => None }).collect();
+    // one component / alternative per kind of member type
+    for (i, k) in MEMBER_KINDS.iter().enumerate() {
+        let rust = crate::structure::title_case(&format!("Zm{i}-{}", c.upper));
+        let Some(t) = m.find_struct(&rust) else { return Some(("structure", format!("the type {rust} with a member of type {k} was not generated"))) };
+        let Some(f0) = t.fields.first() else { return Some(("structure", format!("{rust} has no fields"))) };
+        if let Some(f) = check_one(Role::Component, &f0.name, &c.lower, Some(&f0.attrs)) {
+            return Some((f.0, format!("{} (component of type {k})", f.1)));
+        }
+        let rust = crate::structure::title_case(&format!("Zc{i}-{}", c.upper));
+        let Some(e) = m.find_enum(&rust) else { return Some(("structure", format!("the type {rust} with an alternative of type {k} was not generated"))) };
+        let Some(v0) = e.variants.first() else { return Some(("structure", format!("{rust} has no variants"))) };
+        if let Some(f) = check_one(Role::Alternative, &v0.name, &c.lower, Some(&v0.attrs)) {
+            return Some((f.0, format!("{} (alternative of type {k})", f.1)));
+        }
+    }
+    let consts: Vec<_> = m.items.iter().filter_map(|i| match i { RItem::Const(k) if k.name != "ZZ_ROOT" => Some(k), _ => None }).collect();
     if consts.len() != 1 {
         return Some(("structure", format!("{} constants generated for one value assignment", consts.len())));
     }
